@@ -70,10 +70,15 @@ def battery(seed, tier, n):
         else:
             t = ("Multiply",) + tuple(rng.choice([("Exponential", ("Variable", a), 2), ("NthPower", ("Variable", a), 2), ("NthRoot", ("Add", ("NthPower", ("Variable", a), 2), ("Constant", 1)), 2),
                                                    ("Logarithm", ("Add", ("NthPower", ("Variable", a), 2), ("Constant", 2)), None)]) for a in names)
+        onevar = rng.random() < 0.12
+        if onevar:
+            # one-variable expression at points that carry extra coordinates: the Derivative routes apply
+            t = G.friendly_tree(rng, G.rand_size(rng, 3, 16), G.Cfg(varnames=[names[0]], p_var=0.8, max_n=4), p=0.8)
         vs = sorted(S.variables(t))
-        if len(vs) < 2 or not C.tree_in_scope(t):
+        if (len(vs) < 2 and not (onevar and len(vs) == 1)) or not C.tree_in_scope(t):
             continue
-        pts = [{v: rng.choice([0.5, 1.5, 2.0, 0.25, 3.0, 1.25, 0.1, 1 / 3, 2, -1.5, -0.5, 1, 1.0, 0.7]) for v in vs} for _ in range(2)]
+        pnames = vs if not onevar else vs + names[1:4]
+        pts = [{v: rng.choice([0.5, 1.5, 2.0, 0.25, 3.0, 1.25, 0.1, 1 / 3, 2, -1.5, -0.5, 1, 1.0, 0.7]) for v in pnames} for _ in range(2)]
         if any(R.NORMAL.evaluate(t, p).oos for p in pts):
             continue
         cases.append({"spec": S.to_json(t), "points": [S.point_to_json(p) for p in pts], "vars": rng.sample(vs, min(2, len(vs)))})
